@@ -62,4 +62,19 @@ PLAN = {
         "parts": [part("mc_client", "c07", q=2, t=16), part("mc_client", "c07t", q=16, t=16, tq=200, tt=2400)],
         "assumptions": ["the peer answers requests in arrival order; client threads park before every connection-lock acquisition and every read"],
     },
+    "C10": {
+        "level": "exploration",
+        "parts": [part("en_idl", "c10", q=16, t=16, tq=300, tt=2400)],
+        "assumptions": ["member order is compared per kind (types, methods, errors): that is all the data structure records"],
+    },
+    "C11": {
+        "level": "exploration",
+        "parts": [part("en_idl", "c11", q=16, t=16, tq=300, tt=2400)],
+        "assumptions": ["the reference recogniser transcribes the documented PEG; interface names follow the rule the property states"],
+    },
+    "C12": {
+        "level": "exploration",
+        "parts": [part("en_idl", "c12", q=16, t=16, tq=300, tt=2400)],
+        "assumptions": ["a reported line may be a line under any of the five line-ending conventions; column in 1..=chars(line)+1"],
+    },
 }
